@@ -1,6 +1,7 @@
 #include "sched.h"
 #include "../sim.h"
 
+#include <algorithm>
 #include <errno.h>
 #include <string.h>
 #include <unistd.h>
@@ -74,6 +75,8 @@ double g_spuriousP = 0;
 uint64_t g_decisions = 0, g_switches = 0;
 uint64_t g_schedHash = 1469598103934665603ULL;
 std::vector<uint64_t> g_changePoints; // PCT priority change points
+int64_t g_focusNs = -1; // PCT: change points are counted from the first
+uint64_t g_focusBase = 0; // decision taken at or after this virtual instant
 int g_current = -1;
 uint64_t g_stepBudget = 2000000;
 
@@ -201,9 +204,13 @@ int pick() {
       if (chosen != g_current && n > 1)
         chosen = runnable[g_rng.below(n)];
     } else if (g_policy == PCT) {
-      for (uint64_t cp : g_changePoints)
-        if (cp == g_decisions && g_current >= 0)
-          g_threads[g_current].priority = -(int)g_decisions;
+      if (g_focusNs >= 0 && !g_focusBase && R.now_ns >= g_focusNs)
+        g_focusBase = g_decisions;
+      if (g_focusNs < 0 || g_focusBase)
+        for (uint64_t cp : g_changePoints)
+          if (cp + (g_focusBase ? g_focusBase - 1 : 0) == g_decisions &&
+              g_current >= 0)
+            g_threads[g_current].priority = -(int)g_decisions;
       chosen = runnable[0];
       for (int k = 1; k < n; k++)
         if (g_threads[runnable[k]].priority > g_threads[chosen].priority)
@@ -301,6 +308,8 @@ void start(uint64_t seed, Policy p, int pctDepth, double spuriousP) {
   g_decisions = g_switches = 0;
   g_stepBudget = 2000000;
   g_changePoints.clear();
+  g_focusNs = -1;
+  g_focusBase = 0;
   for (int i = 0; i < pctDepth; i++)
     g_changePoints.push_back(1 + g_rng.below(400));
   g_threads[0] = Thread();
@@ -314,6 +323,14 @@ void start(uint64_t seed, Policy p, int pctDepth, double spuriousP) {
 void stop() {
   TsanIgnore ig;
   g_running = false;
+}
+
+void focus(int64_t absNs, int window) {
+  TsanIgnore ig;
+  g_focusNs = absNs;
+  g_focusBase = 0;
+  for (auto& cp : g_changePoints)
+    cp = 1 + g_rng.below((uint64_t)std::max(1, window));
 }
 
 void yield(const char* why) {
